@@ -3,7 +3,10 @@
 //! A system dictionary and 0..15 user dictionaries are compiled by the real `DictBuilder` (each user dictionary either
 //! against the bare system dictionary or — the CLI `ubuild` / Python route — against the configured dictionary as it stands,
 //! plugin-registered POS and earlier user dictionaries included), loaded through `JapaneseDictionary::from_cfg_storage` with
-//! OOV plugins that ask for POS with userPOS allow/forbid.  For every word of every dictionary the reported POS strings,
+//! OOV providers (SimpleOovPlugin, RegexOovProvider, MeCabOovPlugin with generated char.def / unk.def) that each ask for POS
+//! present in / absent from the system dictionary with their own `userPOS` mode (allow / forbid / key absent): the
+//! configuration must load iff every unknown POS is asked for with allow, and OOV morphemes must report the POS their
+//! provider declares (a one-character KATAKANA probe has an exactly predictable provider entry).  For every word of every dictionary the reported POS strings,
 //! split / word-structure references and dictionary number are recorded and compared with the CSV and with Model/LexSet.v.
 use crate::c04::{build_system, matrix};
 use crate::common::*;
@@ -52,10 +55,118 @@ struct Row {
     ws: Vec<Unit>,
 }
 
+/// one OOV provider of the configuration
+#[derive(Clone, Debug)]
+struct Plug {
+    kind: u8,               // 0 SimpleOovPlugin, 1 RegexOovProvider, 2 MeCabOovPlugin
+    mode: u8,               // 0 "userPOS": "allow", 1 "userPOS": "forbid", 2 key absent (documented default: forbid)
+    pos: Vec<usize>,        // POS asked for, in order (Simple/Regex: one; MeCab: one per unk.def line)
+    cats: Vec<usize>,       // MeCab: category (index into CATS) of every unk.def line
+    costs: Vec<i32>,        // MeCab: cost of every unk.def line (distinct within a case)
+    kata: (bool, bool, u32), // MeCab: (invoke, group, length) of KATAKANA in the plugin's own char.def
+}
+const CATS: [&str; 6] = ["KATAKANA", "ALPHA", "NUMERIC", "DEFAULT", "HIRAGANA", "KANJI"];
+const KIND_NAMES: [&str; 3] = ["Simple", "Regex", "MeCab"];
+const MODE_NAMES: [&str; 3] = ["allow", "forbid", "absent"];
+const SIMPLE_COST: i32 = 30000;
+/// a single KATAKANA character between ASCII material: no dictionary word covers it, every OOV candidate spans exactly it
+const PROBE: &str = "ゼ";
+
+impl Plug {
+    fn simple(pos: usize, mode: u8) -> Plug {
+        Plug { kind: 0, mode, pos: vec![pos], cats: vec![], costs: vec![], kata: (false, false, 0) }
+    }
+    fn allow(&self) -> bool {
+        self.mode == 0
+    }
+}
+
+/// the POS requests the plugins make while the configuration is loaded, in order, with the mode the CONFIGURATION asks for
+fn plugin_reqs(c: &Case) -> Vec<(usize, bool)> {
+    let mut v = vec![];
+    for p in &c.plugins {
+        for q in &p.pos {
+            v.push((*q, p.allow()));
+        }
+    }
+    v
+}
+
+/// POS the single-character KATAKANA probe must report: all candidates span the probe and share connection ids (0, 0), so the
+/// cheapest candidate wins; candidates follow the provider protocol (Simple only when nothing was created before it, MeCab
+/// without `invoke` only when nothing was created before it, group / length of the plugin's own char.def)
+fn probe_expect(c: &Case) -> Option<usize> {
+    let mut created = false;
+    let mut best: Option<(i32, usize)> = None;
+    let mut cand = |cost: i32, pos: usize, best: &mut Option<(i32, usize)>| {
+        if best.map_or(true, |b| cost < b.0) {
+            *best = Some((cost, pos));
+        }
+    };
+    let mut one = |p: &Plug, created: &mut bool, best: &mut Option<(i32, usize)>| match p.kind {
+        0 => {
+            if !*created {
+                cand(SIMPLE_COST, p.pos[0], best);
+                *created = true;
+            }
+        }
+        2 => {
+            let (inv, grp, len) = p.kata;
+            if (!inv && *created) || !(grp || len >= 1) {
+                return;
+            }
+            for k in 0..p.pos.len() {
+                if p.cats[k] == 0 {
+                    cand(p.costs[k], p.pos[k], best);
+                    *created = true;
+                }
+            }
+        }
+        _ => {}
+    };
+    for p in &c.plugins {
+        one(p, &mut created, &mut best);
+    }
+    if !created {
+        one(c.plugins.last().unwrap(), &mut created, &mut best);
+    }
+    best.map(|b| b.1)
+}
+
+thread_local! {
+    static DEFDIR: std::cell::RefCell<std::path::PathBuf> = std::cell::RefCell::new(std::path::PathBuf::from("."));
+}
+
+/// writes a definition file for the MeCab plugin (name by content) and returns its absolute path
+fn def_file(kind: &str, content: &str) -> String {
+    let dir = DEFDIR.with(|d| d.borrow().clone());
+    std::fs::create_dir_all(&dir).unwrap();
+    let p = dir.join(format!("{}_{:016x}.def", kind, hash_of(&content.to_string())));
+    if !p.exists() {
+        std::fs::write(&p, content).unwrap();
+    }
+    std::fs::canonicalize(&p).unwrap().to_string_lossy().to_string()
+}
+
+fn mecab_files(p: &Plug) -> (String, String) {
+    let b = |x: bool| if x { 1 } else { 0 };
+    let chardef = format!(
+        "# generated for the correspondence run\nDEFAULT 0 1 0\nALPHA 1 1 0\nNUMERIC 1 1 0\nKATAKANA {} {} {}\nHIRAGANA 0 1 2\nKANJI 0 0 2\n0x30A1..0x30FF KATAKANA\n",
+        b(p.kata.0),
+        b(p.kata.1),
+        p.kata.2
+    );
+    let mut unk = String::from("# generated for the correspondence run\n");
+    for k in 0..p.pos.len() {
+        unk.push_str(&format!("{},0,0,{},{}\n", CATS[p.cats[k]], p.costs[k], pos_csv(p.pos[k])));
+    }
+    (chardef, unk)
+}
+
 #[derive(Clone, Debug)]
 struct Case {
     sys: Vec<Row>,
-    plugins: Vec<(u8, usize, bool)>, // (0 simple / 1 regex, POS, allow)
+    plugins: Vec<Plug>,
     users: Vec<(bool, Vec<Row>)>,    // (compiled against the configured dictionary?, rows)
 }
 
@@ -145,14 +256,49 @@ fn gen_case(rng: &mut Rng, nusers: usize) -> Case {
         }
         sys.push(r);
     }
+    // 1-3 OOV providers; exactly one position holds a SimpleOovPlugin for sure (every position gets a candidate), the others
+    // are Simple / Regex / MeCab; every provider carries its own userPOS mode: allow, forbid, or no key at all
     let nplug = 1 + rng.below(3) as usize;
+    let simple_at = rng.below(nplug as u64) as usize;
     let mut plugins = vec![];
+    let mut next_cost = 200 + rng.below(50) as i32;
+    let mut known_so_far: Vec<usize> = sys.iter().map(|r| r.pos).collect();
     for p in 0..nplug {
-        let kind = if p == 0 { 0 } else { rng.below(2) as u8 };
-        let pos = rng.below((nsys_pos + 4).min(NPOOL) as u64) as usize;
-        // forbid with an unknown POS makes the configuration fail to load: keep that rare
-        let allow = !rng.chance(1, 12);
-        plugins.push((kind, pos, allow));
+        let kind: u8 = if p == simple_at {
+            0
+        } else {
+            match rng.below(5) {
+                0 => 0,
+                1 => 1,
+                _ => 2,
+            }
+        };
+        let mode: u8 = match rng.below(20) {
+            0..=13 => 0,
+            14..=16 => 1,
+            _ => 2,
+        };
+        let nreq = if kind == 2 { 1 + rng.below(3) as usize } else { 1 };
+        let mut pos = vec![];
+        let mut cats = vec![];
+        let mut costs = vec![];
+        for _ in 0..nreq {
+            // forbid / absent with an unknown POS makes the configuration fail to load: mostly ask for a known POS then
+            let q = if mode != 0 && rng.chance(3, 4) { *rng.pick(&known_so_far) } else { rng.below((nsys_pos + 5).min(NPOOL) as u64) as usize };
+            if mode == 0 && !known_so_far.contains(&q) {
+                known_so_far.push(q);
+            }
+            pos.push(q);
+            cats.push(if rng.chance(1, 2) { 0 } else { 1 + rng.below(5) as usize });
+            next_cost += 1 + rng.below(400) as i32;
+            costs.push(next_cost);
+        }
+        let kata = (rng.chance(1, 2), rng.chance(1, 2), rng.below(3) as u32);
+        if kind != 2 {
+            cats.clear();
+            costs.clear();
+        }
+        plugins.push(Plug { kind, mode, pos, cats, costs, kata });
     }
     let mut users = vec![];
     for d in 0..nusers {
@@ -185,13 +331,22 @@ fn gen_case(rng: &mut Rng, nusers: usize) -> Case {
 
 fn config_json(c: &Case) -> String {
     let mut plugs = vec![];
-    for (kind, pos, allow) in &c.plugins {
-        let up = if *allow { "allow" } else { "forbid" };
-        if *kind == 0 {
-            plugs.push(json!({"class": "com.worksap.nlp.sudachi.SimpleOovPlugin", "oovPOS": pos_fields(*pos), "leftId": 0, "rightId": 0, "cost": 30000, "userPOS": up}));
-        } else {
-            plugs.push(json!({"class": "com.worksap.nlp.sudachi.RegexOovProvider", "regex": "[0-9]+", "oovPOS": pos_fields(*pos), "leftId": 0, "rightId": 0, "cost": 1000, "userPOS": up}));
+    for p in &c.plugins {
+        let mut j = match p.kind {
+            0 => json!({"class": "com.worksap.nlp.sudachi.SimpleOovPlugin", "oovPOS": pos_fields(p.pos[0]), "leftId": 0, "rightId": 0, "cost": SIMPLE_COST}),
+            1 => json!({"class": "com.worksap.nlp.sudachi.RegexOovProvider", "regex": "[0-9]+", "oovPOS": pos_fields(p.pos[0]), "leftId": 0, "rightId": 0, "cost": 1000}),
+            _ => {
+                let (cd, ud) = mecab_files(p);
+                json!({"class": "com.worksap.nlp.sudachi.MeCabOovPlugin", "charDef": def_file("char", &cd), "unkDef": def_file("unk", &ud)})
+            }
+        };
+        // the key is spelled the same for all three providers
+        match p.mode {
+            0 => j["userPOS"] = json!("allow"),
+            1 => j["userPOS"] = json!("forbid"),
+            _ => {}
         }
+        plugs.push(j);
     }
     json!({"path": format!("{}/sudachi/tests/resources", repo()), "characterDefinitionFile": "char.def", "oovProviderPlugin": plugs}).to_string()
 }
@@ -238,7 +393,7 @@ fn case_json(c: &Case) -> Value {
     };
     let rows = |rs: &Vec<Row>| -> Value { Value::Array(rs.iter().map(|r| json!({"surface": r.surface, "reading": r.reading, "pos": r.pos, "a": u(&r.a), "b": u(&r.b), "ws": u(&r.ws)})).collect()) };
     json!({"kind": "c12", "sys": rows(&c.sys),
-           "plugins": c.plugins.iter().map(|(k, p, a)| json!([k, p, a])).collect::<Vec<_>>(),
+           "plugins": c.plugins.iter().map(|p| json!({"kind": p.kind, "provider": KIND_NAMES[p.kind as usize], "mode": p.mode, "userPOS": MODE_NAMES[p.mode as usize], "pos": p.pos, "cats": p.cats, "costs": p.costs, "kata": [p.kata.0, p.kata.1, p.kata.2 > 0, p.kata.2]})).collect::<Vec<_>>(),
            "users": c.users.iter().map(|(cf, rs)| json!({"configured": cf, "rows": rows(rs)})).collect::<Vec<_>>(),
            "pos_pool": (0..NPOOL).map(pos_csv).collect::<Vec<_>>()})
 }
@@ -264,7 +419,22 @@ fn case_from_json(v: &Value) -> Case {
     };
     Case {
         sys: rows(&v["sys"]),
-        plugins: v["plugins"].as_array().unwrap().iter().map(|p| (p[0].as_u64().unwrap() as u8, p[1].as_u64().unwrap() as usize, p[2].as_bool().unwrap())).collect(),
+        plugins: v["plugins"]
+            .as_array()
+            .unwrap()
+            .iter()
+            .map(|p| {
+                let us = |k: &str| -> Vec<u64> { p[k].as_array().map(|a| a.iter().map(|x| x.as_u64().unwrap()).collect()).unwrap_or_default() };
+                Plug {
+                    kind: p["kind"].as_u64().unwrap() as u8,
+                    mode: p["mode"].as_u64().unwrap() as u8,
+                    pos: us("pos").iter().map(|x| *x as usize).collect(),
+                    cats: us("cats").iter().map(|x| *x as usize).collect(),
+                    costs: us("costs").iter().map(|x| *x as i32).collect(),
+                    kata: (p["kata"][0].as_bool().unwrap_or(false), p["kata"][1].as_bool().unwrap_or(false), p["kata"][3].as_u64().unwrap_or(0) as u32),
+                }
+            })
+            .collect(),
         users: v["users"].as_array().unwrap().iter().map(|u| (u["configured"].as_bool().unwrap(), rows(&u["rows"]))).collect(),
     }
 }
@@ -340,15 +510,24 @@ fn run_case(sink: &mut Sink, c: &Case, verbose: bool) {
     }
     let mut known = sys_pos_known.clone();
     let mut cfg_ok = true;
-    for (_, p, allow) in &c.plugins {
-        if !known.contains(p) {
-            if *allow {
-                known.push(*p);
-            } else {
-                cfg_ok = false;
-                break;
+    let mut refused = String::new();
+    for pl in &c.plugins {
+        for p in &pl.pos {
+            if !known.contains(p) {
+                if pl.allow() {
+                    known.push(*p);
+                } else if cfg_ok {
+                    cfg_ok = false;
+                    refused = format!("{} provider, userPOS {}", KIND_NAMES[pl.kind as usize], MODE_NAMES[pl.mode as usize]);
+                }
             }
         }
+        if !cfg_ok {
+            break;
+        }
+    }
+    for pl in &c.plugins {
+        sink.tag(&format!("provider={}/userPOS={}", KIND_NAMES[pl.kind as usize], MODE_NAMES[pl.mode as usize]));
     }
     let plugin_new = known.len() - sys_pos_known.len();
     let bad: std::cell::RefCell<Option<(String, String)>> = std::cell::RefCell::new(None);
@@ -369,7 +548,7 @@ fn run_case(sink: &mut Sink, c: &Case, verbose: bool) {
         "{} {} {} {}",
         clist(sys_reqs.iter().map(|p| cnu(*p))),
         clist(sys_idx.iter().map(|i| format!("{}%nat", i))),
-        clist(c.plugins.iter().map(|(_, p, a)| cpair(&cnu(*p), cbool(*a)))),
+        clist(plugin_reqs(c).iter().map(|(p, a)| cpair(&cnu(*p), cbool(*a)))),
         users_term(c)
     );
     sink.tag(&format!("users={}", c.users.len()));
@@ -380,7 +559,8 @@ fn run_case(sink: &mut Sink, c: &Case, verbose: bool) {
             println!("configuration does not load: {}", e);
         }
         if cfg_ok {
-            fail(format!("configuration with system dictionary only does not load: {}", e), "");
+            let asked: Vec<String> = c.plugins.iter().map(|p| format!("{} userPOS={} POS {:?}", KIND_NAMES[p.kind as usize], MODE_NAMES[p.mode as usize], p.pos)).collect();
+            fail(format!("every OOV provider asks only for POS the system dictionary has or may register them (userPOS allow), yet the configuration does not load [{}]: {}", asked.join("; "), e), "");
         } else if e.starts_with("PANIC") {
             fail(format!("loading a configuration whose plugin forbids an unknown POS panicked: {}", e), "");
         }
@@ -393,7 +573,7 @@ fn run_case(sink: &mut Sink, c: &Case, verbose: bool) {
     }
     if !cfg_ok {
         let id = sink.case(format!("check_case_c12 {} true [] []", head), d, false);
-        sink.fail(id, "a plugin asked for an unknown POS with userPOS=forbid and the configuration loaded", "");
+        sink.fail(id, &format!("a provider asked for a POS the system dictionary lacks without permission to register it ({}) and the configuration loaded", refused), "");
         return;
     }
     let base = base.unwrap();
@@ -544,12 +724,16 @@ fn run_case(sink: &mut Sink, c: &Case, verbose: bool) {
     }
     // morpheme level: dictionary_id and POS through the tokenizer, including OOV
     let mut mobs = vec![];
-    let mut text = String::new();
+    let mut text = String::from(PROBE);
     for dno in 0..=nlayers {
         let rows: &Vec<Row> = if dno == 0 { &c.sys } else { &c.users[dno - 1].1 };
         text.push_str(&rows[rows.len() / 2].surface);
         text.push_str(if dno % 2 == 0 { "@@" } else { "42" });
+        if dno == 0 {
+            text.push_str(PROBE);
+        }
     }
+    let probe_pos = probe_expect(c);
     let tk = StatelessTokenizer::new(&dict);
     let toks = catch(|| {
         let ms = tk.tokenize(&text, Mode::C, false).map_err(|e| format!("{:?}", e))?;
@@ -561,7 +745,10 @@ fn run_case(sink: &mut Sink, c: &Case, verbose: bool) {
     });
     match toks {
         Ok(Ok(v)) => {
-            let plugin_pos: Vec<Vec<String>> = c.plugins.iter().map(|(_, p, _)| pos_fields(*p)).collect();
+            let plugin_pos: Vec<Vec<String>> = c.plugins.iter().flat_map(|p| p.pos.iter().map(|q| pos_fields(*q))).collect();
+            if !v.iter().any(|m| m.4 == PROBE) {
+                sink.tag("probe_not_isolated");
+            }
             for (raw, did, oov, pos, surf) in v {
                 if oov {
                     sink.tag("oov_morpheme");
@@ -570,6 +757,14 @@ fn run_case(sink: &mut Sink, c: &Case, verbose: bool) {
                     }
                     if !plugin_pos.contains(&pos) {
                         fail(format!("OOV morpheme {:?} has POS {:?}, no OOV plugin declares it", surf, pos), "");
+                    }
+                    if surf == PROBE {
+                        sink.tag("probe_oov_checked");
+                        match probe_pos {
+                            Some(q) if pos == pos_fields(q) => {}
+                            Some(q) => fail(format!("OOV morpheme {:?} reports POS {:?}; the cheapest provider entry for it declares {:?}", surf, pos, pos_fields(q)), ""),
+                            None => fail(format!("OOV morpheme {:?} reports POS {:?} but no provider offers a candidate for it", surf, pos), ""),
+                        }
                     }
                 } else {
                     let dno = (raw >> 28) as usize;
@@ -605,14 +800,27 @@ fn run_case(sink: &mut Sink, c: &Case, verbose: bool) {
 
 pub fn run(args: &Args) {
     let mut sink = Sink::new("C12", &args.out, &["Model.LexSet"], args.seed, &args.tier);
+    {
+        let dir = args.work.join("c12defs");
+        let _ = std::fs::remove_dir_all(&dir);
+        DEFDIR.with(|d| *d.borrow_mut() = dir);
+    }
     sink.shard_size = 60;
-    sink.rule("system dictionary (2-6 words, 1-4 POS) + 1-3 OOV plugins (Simple/Regex) asking for POS from a pool of 12 with userPOS allow (forbid rarely) + 0..15 user dictionaries, each compiled either against the bare system dictionary or against the configured dictionary as it stands (CLI ubuild / Python route), rows with POS from the pool (system / plugin-registered / other user dictionaries' / new) and split-A/B + word-structure references written as n, Un and inline triples; every word of every layer is read back (POS strings, references, surface), system words are compared with the user-free load, a text mixing words of all layers with OOV material is tokenized (dictionary_id, POS, OOV = -1); non-trivial = some user word has a user-defined POS or references; distinct by generated Coq term");
+    sink.rule("system dictionary (2-6 words, 1-4 POS) + 1-3 OOV providers (SimpleOovPlugin / RegexOovProvider / MeCabOovPlugin with generated char.def + unk.def of 1-3 lines; a Simple one at a random position) each asking for POS from a pool of 12 (present / absent in the system dictionary) with its own userPOS mode allow / forbid / key absent: the configuration must load iff every unknown POS is asked for with allow, and a one-character KATAKANA probe must report the POS of the cheapest provider entry covering it + 0..15 user dictionaries, each compiled either against the bare system dictionary or against the configured dictionary as it stands (CLI ubuild / Python route), rows with POS from the pool (system / plugin-registered / other user dictionaries' / new) and split-A/B + word-structure references written as n, Un and inline triples; every word of every layer is read back (POS strings, references, surface), system words are compared with the user-free load, a text mixing words of all layers with OOV material is tokenized (dictionary_id, POS, OOV = -1); non-trivial = some user word has a user-defined POS or references; distinct by generated Coq term");
     if let Some(p) = &args.replay {
         let v: Value = serde_json::from_str(&std::fs::read_to_string(p).unwrap()).unwrap();
         let c = case_from_json(&v["case"]);
         // replays show where the implementation panics
         std::panic::set_hook(Box::new(|i| println!("[panic] {}", i)));
         println!("config: {}", config_json(&c));
+        for (k, p) in c.plugins.iter().enumerate() {
+            println!("provider {}: {} userPOS={} asks for POS {:?}", k, KIND_NAMES[p.kind as usize], MODE_NAMES[p.mode as usize], p.pos.iter().map(|q| pos_csv(*q)).collect::<Vec<_>>());
+            if p.kind == 2 {
+                let (cd, ud) = mecab_files(p);
+                println!("  its char.def:\n{}  its unk.def:\n{}", cd, ud);
+            }
+        }
+        println!("expected POS of the probe {:?}: {:?}", PROBE, probe_expect(&c).map(pos_csv));
         println!("system CSV:\n{}", render(&c.sys, &c.sys));
         for (k, (cf, rows)) in c.users.iter().enumerate() {
             println!("user dictionary {} ({}):\n{}", k + 1, if *cf { "built against the configured dictionary" } else { "built against the bare system dictionary" }, render(rows, &c.sys));
@@ -635,7 +843,7 @@ pub fn run(args: &Args) {
                 Row { surface: "u1w1".into(), reading: "ユ1".into(), pos: 5, a: vec![Unit::Own(0), Unit::Sys(1)], b: vec![], ws: vec![Unit::Own(0), Unit::Sys(1)] },
                 Row { surface: "u1w2".into(), reading: "ユ2".into(), pos: 1, a: vec![Unit::Inline(true, 0), Unit::Inline(false, 0)], b: vec![], ws: vec![] },
             ];
-            let c = Case { sys: sys.clone(), plugins: vec![(0, 5, true)], users: vec![(configured, rows)] };
+            let c = Case { sys: sys.clone(), plugins: vec![Plug::simple(5, 0)], users: vec![(configured, rows)] };
             run_case(&mut sink, &c, false);
             sink.tag("directed_plugin_pos_then_user_pos");
         }
@@ -647,8 +855,28 @@ pub fn run(args: &Args) {
         let sys = vec![mk("s0x", 0, vec![]), mk("s1x", 1, vec![])];
         let u1 = vec![mk("u1w0", 2, vec![]), mk("u1w1", 3, vec![]), mk("u1w2", 3, vec![])];
         let u2 = vec![mk("u2w0", 4, vec![Unit::Sys(1), Unit::Sys(3)])];
-        let c = Case { sys, plugins: vec![(0, 0, true)], users: vec![(false, u1), (true, u2)] };
+        let c = Case { sys, plugins: vec![Plug::simple(0, 0)], users: vec![(false, u1), (true, u2)] };
         run_case(&mut sink, &c, false);
+    }
+    // directed: every provider kind x userPOS allow / forbid / key absent x POS present / absent in the system dictionary,
+    // with a user dictionary that declares the very POS the provider asks for and one only it has
+    for kind in 0..3u8 {
+        for mode in 0..3u8 {
+            for unknown in [false, true] {
+                let mk = |s: &str, pos: usize| Row { surface: s.into(), reading: format!("ヨ{}", s), pos, a: vec![], b: vec![], ws: vec![] };
+                let sys = vec![mk("s0x", 0), mk("s1x", 1)];
+                let q = if unknown { 6 } else { 1 };
+                let target = Plug { kind, mode, pos: vec![q], cats: vec![0], costs: vec![777], kata: (true, true, 0) };
+                let mut plugins = vec![target];
+                if kind != 0 {
+                    plugins.push(Plug::simple(0, 1));
+                }
+                let u1 = vec![mk("u1w0", q), mk("u1w1", 8), mk("u1w2", 0)];
+                let c = Case { sys, plugins, users: vec![(unknown, u1)] };
+                run_case(&mut sink, &c, false);
+                sink.tag("directed_provider_x_userpos_x_pos");
+            }
+        }
     }
     // directed: 14 user dictionaries accepted, the 15th rejected
     for n in [14usize, 15] {
